@@ -65,6 +65,7 @@ def main():
 
     ncase = 30 if quick else 250
     reqs, meta = [], []
+    dist_cases = []
     made = 0
     tries = 0
     while made < ncase and tries < ncase * 20:
@@ -110,6 +111,18 @@ def main():
         meta.append(("dot", case, None, complex(a.dot(b))))
         reqs.append(f"dot {enc_chain(a.conj())} {eb}")
         meta.append(("inner", case, None, complex(a.conj().dot(b))))
+        # distance: the three contractions the implementation combines (theorem c03_distance); the squared
+        # distance is an exact integer for Gaussian-integer tensors, so the float result must be its rounded root
+        try:
+            dv = float(a.copy().distance(b.copy()))
+            i0 = len(reqs)
+            reqs.append(f"dot {enc_chain(a.conj())} {ea}")
+            meta.append(("distpart", case, None, None))
+            reqs.append(f"dot {enc_chain(b.conj())} {eb}")
+            meta.append(("distpart", case, None, None))
+            dist_cases.append((i0, i0 + 1, i0 - 1, case, dv))
+        except Exception as e:  # noqa
+            run.violation("distance:raises:" + type(e).__name__, dict(case=case, error=str(e)[:200]))
         # dense amplitudes
         if np.prod([t.shape[1] for t in tensors_of(a)]) <= 81:
             reqs.append(f"amp {ea}")
@@ -134,6 +147,8 @@ def main():
             raise Infra(f"chain driver rejected a request of kind {kind}: {rep}: {req[:200]}")
         if tens is not None:
             ok = same_tensors(dec_chain(rep), tens)
+        elif kind == "distpart":
+            ok = True
         elif kind in ("dot", "inner"):
             a_, b_ = rep.split(":")
             ok = complex(float(Fraction(a_)), float(Fraction(b_))) == scal
@@ -155,10 +170,25 @@ def main():
             run.violation(f"corr:{kind}", dict(correspondence=f"RenoVerif.Chain model of `{kind}` vs renormalizer.mps", case=case,
                                                model=rep[:2000], impl=[t.tolist() for t in tens] if tens is not None else str(scal)),
                           no_input=True)
+    import math
+    for i1, i2, i12, case, dv in dist_cases:
+        def cval(rep):
+            a_, b_ = rep.split(":")
+            return Fraction(a_), Fraction(b_)
+        (l1, l1i), (l2, l2i), (l12, _) = cval(replies[i1]), cval(replies[i2]), cval(replies[i12])
+        d2 = l1 + l2 - 2 * l12     # c03_distance: = sum_c |a_c - b_c|^2 (imaginary parts cancel)
+        if l1i != 0 or l2i != 0 or d2 < 0 or d2.denominator != 1:
+            raise Infra(f"model squared distance is not a non-negative integer: {l1} {l1i} {l2} {l2i} {l12}")
+        exp = math.sqrt(int(d2))
+        run.count("distance:zero" if d2 == 0 else "distance:positive")
+        if dv != exp:
+            ndis += 1
+            run.violation("distance:value", dict(case=case, impl=dv, model_squared=int(d2), model=exp,
+                                                 what="Mps.distance differs from the root of the exact squared distance of the dense vectors"))
     run.cov.update(programs=len(reqs), disagreements_checked=len(reqs), disagreements_found=ndis,
                    evaluations=len(reqs), distinct_nontrivial=len(distinct),
                    rule="random models (1-4 sites, d<=3, 1-2 qn components) x pairs of integer/Gaussian-integer QN-consistent chains with random, "
-                        "mostly different centres and sweep directions x {add, scale, conj, dot, inner, amp, Mpo.apply with charged integer MPO}; "
+                        "mostly different centres and sweep directions x {add, scale, conj, dot, inner, distance, amp, Mpo.apply with charged integer MPO}; "
                         "distinct = distinct request text")
     try:
         import search_c03
